@@ -529,7 +529,7 @@ func runProperty(def *PropDef, tier string, seed int64, noMutants bool) int {
 		"samples":             c.samples,
 		"exhaustive":          true,
 		"checker_cmd":         fmt.Sprintf("/verif/check.sh %s %s", def.ID, tier),
-		"trusted_base":        def.Assumptions,
+		"trusted_base":        nonNil(def.Assumptions),
 		"packages":            npk,
 		"files":               nfi,
 		"functions":           nfu,
@@ -561,7 +561,7 @@ func runProperty(def *PropDef, tier string, seed int64, noMutants bool) int {
 		"seed":        seed,
 		"level":       "other",
 		"coverage":    cov,
-		"assumptions": def.Assumptions,
+		"assumptions": nonNil(def.Assumptions),
 		"wall_s":      time.Since(start).Seconds(),
 		"violations":  len(res.violations),
 	}
@@ -725,4 +725,11 @@ func unparen(e ast.Expr) ast.Expr {
 		}
 		e = p.X
 	}
+}
+
+func nonNil(s []string) []string {
+	if s == nil {
+		return []string{}
+	}
+	return s
 }
